@@ -1,0 +1,240 @@
+//go:build verif
+
+package engine
+
+import (
+	"context"
+	"fmt"
+	"math"
+	"path/filepath"
+	"runtime/debug"
+	"strings"
+
+	"github.com/openGemini/openGemini/engine/comm"
+	"github.com/openGemini/openGemini/engine/executor"
+	"github.com/openGemini/openGemini/engine/immutable"
+	"github.com/openGemini/openGemini/engine/mutable"
+	"github.com/openGemini/openGemini/lib/util"
+	"github.com/openGemini/openGemini/lib/util/lifted/influx/influxql"
+	"github.com/openGemini/openGemini/lib/util/lifted/influx/query"
+)
+
+// Facade additions for property C04 (concurrent writes, flushes, compactions and queries).
+// Compiled only with the `verif` build tag.
+//
+// A query's life is split into the three steps the protocol has: TakeView (CreateCursor: under
+// the shared snapshot lock the memtables and the file lists are referenced, then the series
+// cursors are built), Read (the cursors are drained) and Release (the references are dropped).
+// The view reports its composition: which memtables it holds and which data files.
+
+// VerifView is an open query: the references it holds and its cursors.
+type VerifView struct {
+	info   comm.TSIndexInfo
+	fields []VerifField
+	// composition (valid when Empty is false)
+	Empty       bool // CreateCursor found nothing to read and holds no reference
+	HasActive   bool
+	HasSnapshot bool
+	Orders      []string // base names of the ordered files held, in list order
+	OutOfOrders []string
+	paths       []string
+	done        bool
+}
+
+func verifFileName(p string) string {
+	return strings.TrimSuffix(filepath.Base(p), ".init")
+}
+
+// TakeView opens a query over one measurement the way a select does and returns it without
+// reading it.
+func (v *VerifShard) TakeView(mst string, fields []VerifField, tmin, tmax int64, asc bool) (vw *VerifView, err error) {
+	defer func() {
+		if r := recover(); r != nil {
+			err = fmt.Errorf("panic while opening cursors: %v\n%s", r, debug.Stack())
+		}
+	}()
+	var aux []influxql.VarRef
+	var qf influxql.Fields
+	var names []string
+	for _, f := range fields {
+		aux = append(aux, influxql.VarRef{Val: f.Name, Type: f.Type})
+	}
+	for i := range aux {
+		qf = append(qf, &influxql.Field{Expr: &aux[i]})
+		names = append(names, aux[i].Val)
+	}
+	opt := &query.ProcessorOptions{
+		Name:        mst,
+		Ascending:   asc,
+		FieldAux:    aux,
+		MaxParallel: 1,
+		ChunkSize:   1024,
+		StartTime:   tmin,
+		EndTime:     tmax,
+	}
+	schema := executor.NewQuerySchema(qf, names, opt, nil)
+	info, err := v.sh.CreateCursor(context.Background(), schema)
+	if err != nil {
+		return nil, err
+	}
+	vw = &VerifView{info: info, fields: fields}
+	impl, ok := info.(*TSIndexInfoImpl)
+	if info == nil || !ok || impl == nil {
+		vw.Empty = true
+		vw.info = nil
+		return vw, nil
+	}
+	for _, mr := range impl.immTables {
+		for _, f := range mr.Orders {
+			vw.Orders = append(vw.Orders, verifFileName(f.Path()))
+			vw.paths = append(vw.paths, f.Path())
+		}
+		for _, f := range mr.OutOfOrders {
+			vw.OutOfOrders = append(vw.OutOfOrders, verifFileName(f.Path()))
+			vw.paths = append(vw.paths, f.Path())
+		}
+	}
+	for _, mt := range impl.memTables {
+		if mts, ok := mt.(*mutable.MemTables); ok {
+			a, s := mts.VerifTables()
+			vw.HasActive = vw.HasActive || a != nil
+			vw.HasSnapshot = vw.HasSnapshot || s != nil
+		}
+	}
+	return vw, nil
+}
+
+// Files returns the current paths of the data files the view holds a reference on (a file
+// that was replaced while the view held it is renamed, not removed).
+func (vw *VerifView) Files() []string {
+	if vw.info == nil {
+		return nil
+	}
+	impl := vw.info.(*TSIndexInfoImpl)
+	var out []string
+	for _, mr := range impl.immTables {
+		for _, f := range mr.Orders {
+			out = append(out, f.Path())
+		}
+		for _, f := range mr.OutOfOrders {
+			out = append(out, f.Path())
+		}
+	}
+	return out
+}
+
+// Read drains the cursors of the view (series by series, as VerifShard.Dump does).
+func (vw *VerifView) Read() (rows []VerifRow, err error) {
+	defer func() {
+		if r := recover(); r != nil {
+			err = fmt.Errorf("panic while reading: %v\n%s", r, debug.Stack())
+		}
+	}()
+	if vw.info == nil || vw.done {
+		return nil, nil
+	}
+	vw.done = true
+	for _, cur := range vw.info.GetCursors() {
+		gc, ok := cur.(*groupCursor)
+		if !ok {
+			_ = cur.Close()
+			return nil, fmt.Errorf("unexpected cursor type %T", cur)
+		}
+		for i := range gc.tagSetCursors {
+			ts, ok := gc.tagSetCursors[i].(*tagSetCursor)
+			if !ok {
+				return nil, fmt.Errorf("unexpected tag-set cursor type %T", gc.tagSetCursors[i])
+			}
+			for _, kc := range ts.keyCursors {
+				for {
+					rec, sinfo, e := kc.Next()
+					if e != nil {
+						_ = cur.Close()
+						return nil, e
+					}
+					if rec == nil || rec.RowNums() == 0 {
+						break
+					}
+					rows = appendVerifRows(rows, rec, string(sinfo.GetSeriesKey()), vw.fields)
+				}
+			}
+		}
+		_ = cur.Close()
+	}
+	return rows, nil
+}
+
+// Release drops the references of the view (cursors that were not read are closed first).
+func (vw *VerifView) Release() (err error) {
+	defer func() {
+		if r := recover(); r != nil {
+			err = fmt.Errorf("panic while releasing: %v\n%s", r, debug.Stack())
+		}
+	}()
+	if vw.info == nil {
+		return nil
+	}
+	if !vw.done {
+		vw.done = true
+		for _, cur := range vw.info.GetCursors() {
+			_ = cur.Close()
+		}
+	}
+	vw.info.Unref()
+	vw.info = nil
+	return nil
+}
+
+// VerifProtocolState is what the flush / replace protocol looks like from outside at one
+// moment: whether a table is being flushed, which of its measurements were already published
+// as files, and the file lists.
+type VerifProtocolState struct {
+	Closed      bool
+	HasActive   bool
+	HasSnapshot bool
+	Flushed     map[string]bool     // measurement -> flushed flag of the table being flushed
+	InSnapshot  map[string]bool     // measurement has rows in the table being flushed
+	Orders      map[string][]string // measurement -> ordered files (list order)
+	OutOfOrders map[string][]string
+}
+
+// ProtocolState observes the protocol state under the locks a query takes (shared snapshot
+// lock, then the file lists through GetBothFilesRef); the file references are dropped again.
+func (v *VerifShard) ProtocolState(msts []string) VerifProtocolState {
+	st := VerifProtocolState{Flushed: map[string]bool{}, InSnapshot: map[string]bool{}, Orders: map[string][]string{}, OutOfOrders: map[string][]string{}}
+	s := v.sh
+	s.snapshotLock.RLock()
+	defer s.snapshotLock.RUnlock()
+	st.Closed = s.isClosing()
+	st.HasActive = s.activeTbl != nil
+	st.HasSnapshot = s.snapshotTbl != nil
+	for _, m := range msts {
+		if s.snapshotTbl != nil {
+			st.InSnapshot[m], st.Flushed[m] = s.snapshotTbl.VerifFlushed(m)
+		}
+		ord, ooo, _ := s.immTables.GetBothFilesRef(m, false, util.TimeRange{Min: math.MinInt64, Max: math.MaxInt64}, nil)
+		for _, f := range ord {
+			st.Orders[m] = append(st.Orders[m], verifFileName(f.Path()))
+		}
+		for _, f := range ooo {
+			st.OutOfOrders[m] = append(st.OutOfOrders[m], verifFileName(f.Path()))
+		}
+		immutable.UnrefFiles(ord...)
+		immutable.UnrefFiles(ooo...)
+	}
+	return st
+}
+
+// CloseShardFirst closes the shard and then its index, the order in which a database
+// partition shuts down (VerifShard.Close closes the index first).
+func (v *VerifShard) CloseShardFirst() error {
+	e1 := v.sh.Close()
+	e2 := v.ib.Close()
+	if e1 != nil {
+		return e1
+	}
+	return e2
+}
+
+// SetFlushConcurrency: see mutable.VerifSetFlushConcurrency.
+func VerifSetFlushConcurrency(n int) { mutable.VerifSetFlushConcurrency(n) }
